@@ -274,7 +274,9 @@ fn c11_v6_size_guards() {
     let size: u16 = kani::any();
     kani::assume(size < 48 || size > 1024);
     let udp: bool = kani::any();
-    let ipv6 = any_ipv6_cfg(if udp { Protocol::Udp } else { Protocol::Icmp }, size, false);
+    let mut ipv6 = any_ipv6_cfg(if udp { Protocol::Udp } else { Protocol::Icmp }, size, false);
+    // the guard does not depend on the pattern; concrete in both tiers (symbolic size x symbolic pattern runs out of memory)
+    ipv6.payload_pattern = PayloadPattern(0xA5);
     let probe = any_probe(Flags::empty());
     let mut s = HSock;
     let r = if udp { ipv6.dispatch_udp_probe(&mut s, probe) } else { ipv6.dispatch_icmp_probe(&mut s, probe) };
